@@ -116,8 +116,8 @@ impl Campaign for C02c {
     }
     fn runs(&self, tier: Tier) -> u64 {
         match tier {
-            Tier::Quick => 10_000,
-            Tier::Thorough => 400_000,
+            Tier::Quick => 50_000,
+            Tier::Thorough => 1_500_000,
         }
     }
     fn generate(&self, rng: &mut Rng, index: u64, _tier: Tier) -> Scenario {
@@ -221,8 +221,8 @@ impl Campaign for C03c {
     }
     fn runs(&self, tier: Tier) -> u64 {
         match tier {
-            Tier::Quick => 10_000,
-            Tier::Thorough => 400_000,
+            Tier::Quick => 30_000,
+            Tier::Thorough => 1_000_000,
         }
     }
     fn generate(&self, rng: &mut Rng, index: u64, tier: Tier) -> Scenario {
